@@ -1,21 +1,27 @@
 """C07 — string and postponed annotations are checked exactly like evaluated ones.
 
-R1  TLC checks spec/FwdRef.tla (intended design: all four deviation switches FALSE) for every
-    placement x hint shape; each switch (three behaviours of beartype 0.23.0 and one wrong
-    design) is run as a spec mutant and must be rejected.
-R2  Every behaviour of the specification is one Python PROGRAM.  The state graph of a small
-    configuration is dumped (with the 0.23.0 switches on, so that every state carries both
-    what the code-shaped model does -- ``got`` -- and what C07 allows -- ``want``), an edge
-    cover is computed and every path is rendered as a module of a scratch package, in four
-    variants of the same definitions: evaluated annotations (where Python itself can evaluate
-    them), string literals, strings nested in the hint (``list['N']``), and
-    ``from __future__ import annotations``.  The modules are imported in fresh subprocesses
-    (16 in parallel, many independent modules per subprocess); each call of the decorated
-    callable records accept / violation / exception class.  Real outcomes are compared with
-    ``want`` (computed by TLC), and the variants with each other.  ``tlc -simulate`` supplies
-    longer programs.
-    A deviation that the 0.23.0 switches predict is keyed by (placement, resolution route,
-    relation of the object's class to the expected class); anything else by the call itself.
+R1  TLC checks spec/FwdRef.tla with every deviation switch FALSE (the intended design: names
+    resolve as Python's lexical scoping says) for every placement x hint shape; each of the
+    five switches (four behaviours of beartype 0.23.0: GlobalFirst, FakeFallback, FrameByCode,
+    SharedProxy; one wrong design: CacheFailure) is run alone as a spec mutant and must be
+    rejected by the invariant it breaks.
+R2  Every behaviour of the specification is one Python PROGRAM.  State graphs of small
+    configurations are dumped with the 0.23.0 switches ON (so that every Call state carries
+    what the code-shaped model does -- ``got`` -- next to what C07 allows -- ``want``, computed
+    by the declarative operator Want), an edge cover is computed and every path is rendered
+    as a module of a scratch package in up to four variants of the same definitions:
+    evaluated annotations (where Python itself can evaluate them), one string literal
+    ('list[N]'), strings nested in the hint (list['N']) and ``from __future__ import
+    annotations``.  ``tlc -simulate`` supplies longer programs (up to 14 statements, second
+    activations of the enclosing function, redefinitions).  The modules are imported in fresh
+    subprocesses (64 batches, 16 at a time, distinct module names); each call of the
+    decorated callable records accept / violation / forward-reference exception / other.
+    Real outcomes must lie in ``want``; the evaluated variant must agree with ``want`` too
+    (otherwise the oracle is not trusted: exit 2).  The TLC counterexamples of the switches
+    are replayed as minimal reproductions.
+    A deviation that the 0.23.0 switches predict (real == got) is keyed by
+    (placement, resolution route blamed by the specification); anything else by the call.
+    Every distinct violation is confirmed alone in a fresh interpreter before it is reported.
 """
 from __future__ import annotations
 
@@ -476,6 +482,7 @@ class Judge:
         self.pending = []          # violations to confirm alone: (key, what, case)
         self.oracle_doubt = []
         self.diffs = []
+        self.symptoms = {}
 
     def program(self, prog, outs, origin, model=True):
         self.stats["programs"] += 1
@@ -532,28 +539,33 @@ class Judge:
         symptom = SYMPTOM.get((real, wverd), f"outcome {real}, allowed {sorted(want)}")
         bl = s["blame"][fm]
         route = next((r for r in (bl["a"], bl["b"]) if r), "")
+        kind = "unbound-name-no-exception" if wverd == "fwdref" else \
+            ("bound-name-exception" if real == "fwdref" else "wrong-class")
         if real == got and route:
-            key = {"placement": prog.p, "route": route,
-                   "symptom": "unbound-name-no-exception" if wverd == "fwdref" else
-                              ("bound-name-exception" if real == "fwdref" else "wrong-class")}
+            # the mechanism at a site: where the definition is placed, which resolution route went wrong
+            key = {"placement": prog.p, "route": route}
             why = ROUTE_TEXT.get(route, route)
         else:
             key = {"placement": prog.p, "hint": prog.h, "form": fm, "real": real, "allowed": sorted(want),
                    "model_0230": got, "unmodelled": True}
             why = "not explained by the 0.23.0 switches of FwdRef.tla"
         ck = json.dumps(key, sort_keys=True)
-        rank = (not prog.natural(), len(prog.steps), fm != "str")      # prefer natural, short examples
+        # example shown for a key: prefer natural programs, a wrong verdict over a missing exception, short ones
+        rank = (not prog.natural(), kind != "wrong-class", len(prog.steps), fm != "str")
         count = 1
         if ck in self.first:
             self.first[ck]["count"] += 1
             if rank >= self.first[ck]["rank"]:
+                self.symptoms[ck][kind] = self.symptoms[ck].get(kind, 0) + 1
                 return
             count = self.first[ck]["count"]
         what = (f"placement {prog.p}, annotation {hint_src(prog.h, prog.p, fm)} ({fm} form), statement {i}: "
                 f"{_fmt_obj(s['obj'])} -> real outcome {real}; C07 allows {sorted(want)} "
                 f"(outcomes of the variants of this call: {reals}). {symptom}. Cause: {why}.")
         case = {"prog": prog.to_json(), "form": fm, "step": i, "origin": origin, "real": real,
-                "allowed": sorted(want), "source": render(prog, fm)}
+                "allowed": sorted(want), "symptom": kind, "source": render(prog, fm)}
+        self.symptoms.setdefault(ck, {})
+        self.symptoms[ck][kind] = self.symptoms[ck].get(kind, 0) + 1
         self.first[ck] = {"key": key, "what": what, "case": case, "count": count, "prog": prog, "form": fm, "step": i,
                           "rank": rank}
 
@@ -565,7 +577,7 @@ class Judge:
                 self.first[ck] = {"key": key, "what": f"placement {prog.p}, {fm} form: the program stops with {err}",
                                   "case": {"prog": prog.to_json(), "form": fm, "step": -1, "origin": origin,
                                            "source": render(prog, fm)},
-                                  "count": 1, "prog": prog, "form": fm, "step": -1, "rank": (False, 0, False)}
+                                  "count": 1, "prog": prog, "form": fm, "step": -1, "rank": (False, False, 0, False)}
         else:
             self.rep.machinery(f"generated program failed for a reason unrelated to beartype ({fm} form): {err}\n"
                                + render(prog, fm))
@@ -591,6 +603,7 @@ class Judge:
                     self.rep.add("batch_dependent")
                     continue
             it["case"]["occurrences"] = it["count"]
+            it["case"]["symptoms"] = self.symptoms.get(json.dumps(it["key"], sort_keys=True), {})
             if not it["prog"].natural():
                 # the only programs showing this deviation make a name local to the enclosing function with a
                 # class statement that never runs (dead code): recorded, not reported
